@@ -23,6 +23,8 @@ CFG = {
         "Swat4.C15.mem_filter",
         "Swat4.C15.refresh_pred",
         "Swat4.C15.revive_pred",
+        "Swat4.C15.facts_cycle_deadline",
+        "Swat4.C15.facts_deadline_is_next_tick",
     ],
     "shards": (4, 16),
     "nontrivial": _nontrivial,
